@@ -20,7 +20,13 @@ RULE = ("one run = one seeded DHT network of real Nodes on a simulated datagram 
         "latency up to 2 s, duplication and reordering; after settling 1..3 nodes announce a blob and every other "
         "node looks it up at seeded ages before and after the 24 h expiry (clock jumps or continuous time). family "
         "`paging`: 2..4 real nodes plus 1..100 thin announcers storing on one node, another node must find all. "
-        "family `faulty`: 6..30 nodes, then datagram loss 0..60 %, dead and hostile subsets (25 scripted reply "
+        "In 60 % of paging runs the searching nodes announce the blob themselves. In 30 % of `hit` runs one announcer "
+        "is configured with an odd blob port (65535, 1024, 1023, 80, 1): an unusable port forfeits that announcer's own "
+        "hit guarantee, every other announcer is judged as always. "
+        "30 % of `faulty` runs are tiny networks (2..4 nodes) in which EVERY other node is hostile (the scripted reply is the "
+        "last outstanding probe; behaviours biased to alias_honest / key_as_id / endless_pages / endless_closer). A "
+        "yielded contact must have replied under its node id from its host. "
+        "family `faulty`: 6..30 nodes, then datagram loss 0..60 %, dead and hostile subsets (31 scripted reply "
         "rewrites); node and value lookups must end within RPC_TIMEOUT x (find requests sent + 1) and yield only "
         "valid results. Non-trivial = at least one lookup judged; distinct = distinct event-trace digest.")
 COMPONENTS = {
